@@ -394,6 +394,17 @@ def run_shard(ctx):
 
 
 def replay(ctx, case):
+  if case.get("kind") == "program":
+    from pytype import analyze, config, io
+    opts = config.Options.create("m.py", python_version=(3, 12))
+
+    def make():
+      ret = io._call(analyze.infer_types, case["src"], opts, None)  # pylint: disable=protected-access
+      return ret.ast, ret.context.loader
+
+    sel = [s for s in SETTINGS if s[0] == case.get("setting")] or SETTINGS[:2]
+    check_ast(ctx, make, "program", "P:" + case["src"], case, settings=sel)
+    return
   text = case["text"]
   sel = [s for s in SETTINGS if s[0] == case.get("setting")] or SETTINGS
   check_ast(ctx, lambda: pt.load_resolved(text, "m"), "replay", text, case,
